@@ -106,7 +106,13 @@ def parse_event(ev):
     if '#' in ev:
         ev, i = ev.split('#', 1)
         idx = int(i)
-    return ev, idx, script
+    return ev.rstrip('~'), idx, script
+
+
+def is_lazy(ev):
+    """NAME~ : the event's own action runs, the rest of the instant (zero-delay calls, other timers due now, local close
+    completions) is left pending until the next event - an operator request or a peer message can land in between"""
+    return ev.split('@', 1)[0].split('#', 1)[0].endswith('~')
 
 
 class ScriptChooser(object):
@@ -150,6 +156,8 @@ def apply_event(w, ev, rng=None):
     name, idx, script = parse_event(ev)
     ch = RandomChooser(rng) if (rng is not None and not script) else ScriptChooser(script)
     w.chooser = ch
+    # NAME~ leaves the rest of its instant pending; it is finished by the settle() that ends the next event's own action
+    w.lazy = is_lazy(ev)
     ok = True
     if name == 'ACCEPT':
         ok = idx < len(w.pending()) and w.accept(idx) is not None
@@ -157,6 +165,8 @@ def apply_event(w, ev, rng=None):
         ok = idx < len(w.pending()) and w.refuse(idx)
     elif name == 'TICK':
         ok = bool(w.tick())
+    elif name == 'SETTLE':
+        w.settle()          # the reactor finishes the current instant
     elif name.startswith('ADV'):
         w.advance(float(name[3:]))
     elif name in ('PEERCLOSE', 'PEERRESET'):
@@ -186,7 +196,7 @@ def apply_event(w, ev, rng=None):
     full = ev
     picks = getattr(ch, 'picks', None)
     if picks and any(picks):
-        full = name + ('#%d' % idx if idx else '') + '@' + '.'.join(str(x) for x in picks)
+        full = name + ('~' if is_lazy(ev) else '') + ('#%d' % idx if idx else '') + '@' + '.'.join(str(x) for x in picks)
     return dict(applied=ok, sizes=ch.sizes, name=name, idx=idx, script=script, ev=full)
 
 
@@ -506,7 +516,7 @@ class Explorer(object):
         return nxt
 
 
-def random_walk(cfg, monitor_classes, alphabet, rng, length, multi=False, stopstart=True, weights=None, rest=()):
+def random_walk(cfg, monitor_classes, alphabet, rng, length, multi=False, stopstart=True, weights=None, rest=(), lazy=0.0):
     r = Run(cfg, monitor_classes, rng=rng)
     for _ in range(length):
         evs = enabled(r.w, alphabet, multi, stopstart, rest)
@@ -517,9 +527,17 @@ def random_walk(cfg, monitor_classes, alphabet, rng, length, multi=False, stopst
             e = rng.choices(evs, ws)[0]
         else:
             e = rng.choice(evs)
+        if lazy and rng.random() < lazy and parse_event(e)[0] not in REST_SENDS and parse_event(e)[0] not in QUEUED:
+            # sub-instant interleaving: the reactor has not finished this instant when the next event arrives.  Not for REST
+            # sends: their write is queued from a worker thread, and preemption between those threads and the reactor is
+            # outside the event model (DESIGN.md 16)
+            n_, i_, s_ = parse_event(e)
+            e = n_ + '~' + ('#%d' % i_ if i_ else '')
         r.step(e)
         if r.cut:
             break
+    if getattr(r.w, 'lazy', False) and not r.cut:
+        r.step('SETTLE')
     return r
 
 
